@@ -41,6 +41,26 @@ func (r *Responder) Respond(w http.ResponseWriter, req *http.Request, code int, 
 	return err
 }
 
+// isSameSiteRedirect reports whether a client supplied redirect target can only
+// lead to a location on this site: it must be an absolute path ("/..."), must
+// not start with "//" or "/\" (scheme-relative forms browsers resolve to
+// another host), and must not contain "://", backslashes, spaces or control
+// characters (which browsers strip or normalize before resolving).
+func isSameSiteRedirect(redir string) bool {
+	if len(redir) == 0 || redir[0] != '/' {
+		return false
+	}
+	if len(redir) > 1 && (redir[1] == '/' || redir[1] == '\\') {
+		return false
+	}
+	for i := 0; i < len(redir); i++ {
+		if c := redir[i]; c <= 0x20 || c == 0x7f || c == '\\' {
+			return false
+		}
+	}
+	return !strings.Contains(redir, "://")
+}
+
 func isAPIRequest(r *http.Request) bool {
 	return strings.HasPrefix(r.Header.Get("Content-Type"), "application/json")
 }
@@ -77,7 +97,7 @@ func (r *Redirector) Redirect(w http.ResponseWriter, req *http.Request, ro authb
 func (r Redirector) redirectAPI(w http.ResponseWriter, req *http.Request, ro authboss.RedirectOptions) error {
 	path := ro.RedirectPath
 	redir := req.FormValue(r.FormValueName)
-	if strings.Contains(redir, "://") {
+	if !isSameSiteRedirect(redir) {
 		// Guard against Open Redirect: https://cwe.mitre.org/data/definitions/601.html
 		redir = ""
 	}
@@ -127,7 +147,7 @@ func (r Redirector) redirectAPI(w http.ResponseWriter, req *http.Request, ro aut
 func (r Redirector) redirectNonAPI(w http.ResponseWriter, req *http.Request, ro authboss.RedirectOptions) error {
 	path := ro.RedirectPath
 	redir := req.FormValue(r.FormValueName)
-	if strings.Contains(redir, "://") {
+	if !isSameSiteRedirect(redir) {
 		// Guard against Open Redirect: https://cwe.mitre.org/data/definitions/601.html
 		redir = ""
 	}
